@@ -1,5 +1,6 @@
 from __future__ import unicode_literals, division, absolute_import, print_function
 import re
+import sys
 import colorsys
 from css_parser.helper import normalize, pushtoken
 import css_parser
@@ -414,12 +415,14 @@ class ColorValue(Value):
                         raw.append(item.value.value)
                         check += 'N'
                     elif type_ == Value.PERCENTAGE:
+                        # (clipped below anyway; huge values would overflow)
+                        pct = min(max(item.value.value, -1000), 1000)
                         if HSL:
                             # save as percentage fraction
-                            raw.append(item.value.value / 100.0)
+                            raw.append(pct / 100.0)
                         else:
                             # save as real value of percentage of 255
-                            raw.append(int(255 * item.value.value / 100))
+                            raw.append(int(255 * pct / 100))
                         check += 'P'
 
                 if len(raw) < 3:
@@ -428,7 +431,9 @@ class ColorValue(Value):
                 elif HSL:
                     # convert to rgb
                     # h is 360 based (circle)
-                    h, s, l_ = raw[0] / 360.0, raw[1], raw[2]
+                    # (the hue is an angle: modulo a full circle, which
+                    # also keeps huge integers from overflowing a float)
+                    h, s, l_ = (raw[0] % 360) / 360.0, raw[1], raw[2]
                     # saturation and lightness are clipped to 0..100%
                     s, l_ = min(max(s, 0), 1), min(max(l_, 0), 1)
                     # ORDER h l_ s !!!
@@ -536,6 +541,9 @@ class DimensionValue(Value):
                 normalize(item.value))[0]
             if '.' in v:
                 val = float(sign + v)
+                if val in (float('inf'), float('-inf')):
+                    # more digits than a float can hold: the largest one
+                    val = sys.float_info.max if val > 0 else -sys.float_info.max
             else:
                 val = int(sign + v)
 
